@@ -88,7 +88,7 @@ def check_overlapping_cds(res, N, exons, strand, cds_blocks):
             res.deviation(name, c, got, E, sig=f"ovlcds-{name}")
 
 
-def check_tx(res, N, exons, strand, cds, pk, f0=0):
+def check_tx(res, N, exons, strand, cds, pk, f0=0, after_seq=False):
     genome = GENOME[:N]
     if pk == "chrom":
         parent = lib.chrom_parent(genome)
@@ -99,6 +99,8 @@ def check_tx(res, N, exons, strand, cds, pk, f0=0):
     else:
         parent = None
     case0 = dict(N=N, exons=[list(b) for b in exons], strand=strand, cds=list(cds) if cds else None, pk=pk, f0=f0)
+    if after_seq:
+        case0["after_seq"] = True
     Ptx = F.tx_positions(exons, strand)
     ln = len(Ptx)
     if cds:
@@ -111,7 +113,18 @@ def check_tx(res, N, exons, strand, cds, pk, f0=0):
     else:
         tx = lib.mk_tx(exons, strand, parent=parent)
         Pcds = None
-    res.state(("tx", exons, strand, cds, pk, f0))
+    if after_seq:
+        # the coordinate systems do not depend on what was asked before: the same battery on a transcript whose sequences
+        # (spliced, CDS, protein, reference) have already been extracted - extraction walks the block lists the
+        # conversions use.  The spliced sequence itself is judged against the transcript position list.
+        o = lib.outcome(lambda: str(tx.get_spliced_sequence()))
+        res.trans()
+        exp_seq = F.splice(genome, Ptx, strand)
+        if o[0] != "ok" or o[1] != exp_seq:
+            res.deviation("get_spliced_sequence", dict(op="get_spliced_sequence", **case0), o[1], exp_seq, sig="spliced-seq")
+        for fn in (lambda: tx.get_reference_sequence(), lambda: tx.get_cds_sequence(), lambda: tx.get_protein_sequence(), lambda: str(tx.get_spliced_sequence())):
+            lib.outcome(fn)
+    res.state(("tx", exons, strand, cds, pk, f0, after_seq))
     if len(exons) > 1 or strand == "-" or (cds and (cds[0] == 0 or cds[1] == ln)):
         res.nontriv(("tx", exons, strand, cds, pk))
     # ---- point conversions -----------------------------------------------------------------------------------
@@ -282,6 +295,8 @@ def run_shard(shard):
                     if pk == "chunk" and exons[0][0] == 0:
                         continue
                     check_tx(res, N, exons, strand, cds, pk)
+                    if pk != "none" and len(exons) > 1:
+                        check_tx(res, N, exons, strand, cds, pk, after_seq=True)
                 # 5'-incomplete CDS (start frame 1 / 2): coordinates and amino-acid index = CDS position // 3 all the same
                 if cds and (cds[0] == 0 or cds[1] == ln or cds[1] - cds[0] <= 4):
                     for f0 in (1, 2):
@@ -305,7 +320,7 @@ def replay(case):
     if case.get("kind") == "ovlcds":
         check_overlapping_cds(res, case["N"], tuple(tuple(b) for b in case["exons"]), case["strand"], tuple(tuple(b) for b in case["cds_blocks"]))
         return res.deviations
-    check_tx(res, case["N"], tuple(tuple(b) for b in case["exons"]), case["strand"], tuple(case["cds"]) if case["cds"] else None, case["pk"], case.get("f0", 0))
+    check_tx(res, case["N"], tuple(tuple(b) for b in case["exons"]), case["strand"], tuple(case["cds"]) if case["cds"] else None, case["pk"], case.get("f0", 0), case.get("after_seq", False))
     devs = [d for d in res.deviations if d["case"].get("op") == case.get("op")]
     return devs or res.deviations
 
